@@ -15,7 +15,7 @@ m = {
               "serves_properties": sorted(claims["checks"].keys()),
               "kind_free_text": "TLC 1.8 explicit-state model checker (+ CommunityModules) over the TLA+ specifications in /verif/spec; conformance harness in /verif/harness (spec behaviours replayed into the Python implementation, recorded implementation traces validated by Trace*.tla)"}],
  "checks": [], "not_applicable": [],
- "notes": "Single entry point ./check <id> --tier quick|thorough. Exit 0 held, 1 violation (VIOLATION line), 2 machinery failure. known_findings.json lists recorded findings and fixed defects."}
+ "notes": "Single entry point ./check <id> --tier quick|thorough. Exit 0 held, 1 violation (VIOLATION line), 2 machinery failure. known_findings.json lists recorded findings and fixed defects. Lines starting EXTENSION-FINDING report disagreements in behaviour no listed property speaks of (Timer, LivePlotting, Logger texts, progress bar, deprecated keyword aliases): they come with a replay file and never change the exit code. VERIF_SEED selects the seed, VERIF_TLC_TIMEOUT_SCALE (default 3) multiplies every TLC time limit."}
 for pid in props:
     if pid in claims["checks"]:
         c = claims["checks"][pid]
